@@ -37,7 +37,7 @@ vars == <<cst, rq, srv, wg, usedIds>>
 
 NoConn == "noconn"
 
-InitReq == [conn |-> NoConn, sent |-> "no", stage |-> "none", ext |-> "no", h |-> "none",
+InitReq == [conn |-> NoConn, sent |-> "no", reset |-> FALSE, stage |-> "none", ext |-> "no", h |-> "none",
             task |-> "none", id |-> "", status |-> 0, hstatus |-> 0, recv |-> "no", steps |-> 0]
 
 Init ==
@@ -49,7 +49,9 @@ Init ==
   /\ usedIds = {}
 
 InFlight(r) == rq[r].stage \in {"started", "versioned", "routed"}
-ClientGone(r) == rq[r].conn # NoConn /\ cst[rq[r].conn].client = "gone"
+\* the client of request r has gone away: it closed the connection, or
+\* (HTTP/2) reset this request's stream
+ClientGone(r) == rq[r].conn # NoConn /\ (cst[rq[r].conn].client = "gone" \/ rq[r].reset)
 
 \* ------------------------------------------------------------------ clients
 ClientConnect(c) ==                                                    \* [D] connect attempt
@@ -79,6 +81,14 @@ ClientFinish(r) ==                                                     \* [D]
   /\ rq' = [rq EXCEPT ![r].sent = "full"]
   /\ UNCHANGED <<cst, srv, wg, usedIds>>
 
+ClientReset(r) ==                                                      \* [D] HTTP/2 stream reset
+  /\ rq[r].sent = "full"
+  /\ ~rq[r].reset
+  /\ cst[rq[r].conn].client = "open"
+  /\ rq[r].recv = "no"
+  /\ rq' = [rq EXCEPT ![r].reset = TRUE]
+  /\ UNCHANGED <<cst, srv, wg, usedIds>>
+
 ClientDisconnect(c) ==                                                 \* [D]
   /\ cst[c].client = "open"
   /\ cst' = [cst EXCEPT ![c].client = "gone"]
@@ -102,6 +112,7 @@ ClientNoResponse(r) ==                                                 \* [D]
   /\ rq[r].recv = "no"
   /\ \/ \E r2 \in Req : rq[r2].conn = rq[r].conn /\ rq[r2].h = "panicked"
      \/ srv.closeReq /\ rq[r].stage = "none"
+     \/ ClientGone(r)                           \* the client itself gave up
   /\ rq' = [rq EXCEPT ![r].recv = "none"]
   /\ UNCHANGED <<cst, srv, wg, usedIds>>
 
@@ -250,10 +261,13 @@ AcceptExit ==                                                          \* [F] ac
   /\ UNCHANGED <<cst, rq, wg, usedIds>>
 
 \* hyper's graceful shutdown returns when every watched connection has
-\* finished, hence when no request future is alive.
+\* finished.  A connection does not finish while a request of a client that is
+\* still there is unanswered.  Requests of clients that have gone away may
+\* still be winding down: with HTTP/2 the per-stream futures run in tasks of
+\* their own and are dropped shortly after the connection itself has ended.
 GracefulDone ==                                                        \* [F] graceful_done
   /\ srv.acceptExit /\ ~srv.gracefulDone
-  /\ \A r \in Req : ~InFlight(r)
+  /\ \A r \in Req : InFlight(r) => ClientGone(r)
   /\ srv' = [srv EXCEPT !.gracefulDone = TRUE]
   /\ UNCHANGED <<cst, rq, wg, usedIds>>
 
@@ -272,7 +286,7 @@ CloseReturned ==                                                       \* [D] cl
 Next ==
   \/ \E c \in Conn : ClientConnect(c) \/ ConnectRefused(c) \/ ClientDisconnect(c) \/ Accept(c)
   \/ \E r \in Req, c \in Conn, k \in SendKinds : ClientSend(r, c, k)
-  \/ \E r \in Req : ClientFinish(r) \/ ClientNoResponse(r)
+  \/ \E r \in Req : ClientFinish(r) \/ ClientNoResponse(r) \/ ClientReset(r)
   \/ \E r \in Req, id \in Ids : ReqStart(r, id)
   \/ \E r \in Req : VersionOk(r) \/ RouteOk(r) \/ Spawn(r) \/ ExtractOk(r)
                     \/ HandlerEnter(r) \/ HandlerStep(r) \/ HandlerPanic(r)
@@ -322,9 +336,9 @@ NoHandlerBeforeReject ==
 \* C17: shutdown does not finish while a handler runs or a started request
 \* is unanswered
 ShutdownWaits ==
-  srv.wgDone => \A r \in Req : /\ rq[r].h # "running"
-                               /\ rq[r].task # "spawned"
-                               /\ ~InFlight(r)
+  srv.wgDone => \A r \in Req : /\ rq[r].task # "spawned"            \* detached handlers have finished
+                               /\ InFlight(r) => ClientGone(r)       \* clients that stayed were answered
+                               /\ rq[r].h = "running" => Mode = "cancel" /\ ClientGone(r)
 CloseAfterDone == srv.closeReturned => srv.wgDone /\ srv.gracefulDone /\ srv.acceptExit
 
 \* C17: a started request whose client stays connected is never dropped
